@@ -19,7 +19,7 @@ import PyxModel.Oal.LexGen
   (`text'.map lowerAscii = text.map lowerAscii`) that leaves every non-keyword token of `text` untouched.
 -/
 namespace PyxProps.C08
-open Pyx.Oal
+open Pyx.OalLex
 
 /-- keyword recognition cannot be influenced by letter case in the generated table: `t_ID` compares the
     UPPER-CASED lexeme with the keyword table, no literal rule and no ignored character is a letter -/
